@@ -80,12 +80,17 @@ macro_rules! render_primitive {
                     self
                 }
 
-				fn to_html_with_buf(self, buf: &mut String, position: &mut Position, _escape: bool, _mark_branches: bool, _extra_attrs: Vec<AnyAttribute>) {
+				fn to_html_with_buf(self, buf: &mut String, position: &mut Position, escape: bool, _mark_branches: bool, _extra_attrs: Vec<AnyAttribute>) {
 					// add a comment node to separate from previous sibling, if any
 					if matches!(position, Position::NextChildAfterText) {
 						buf.push_str("<!>")
 					}
-					_ = write!(buf, "{}", self);
+					if escape {
+						// like any other text node (a `char` can be `<` or `&`)
+						buf.push_str(&html_escape::encode_text(&self.to_string()));
+					} else {
+						_ = write!(buf, "{}", self);
+					}
 					*position = Position::NextChildAfterText;
 				}
 
